@@ -316,4 +316,78 @@ def hasRetH : List (Nat × List Stmt) → Bool
   | (_, b) :: hs => hasRetB b || hasRetH hs
 end
 
+/-! ### a concrete name generator and the decidable freshness check
+
+Generated names start with `$` (not a Python identifier character), so no program translated from Python
+can mention them: `userNamesB` is the decidable form of the theorems' `GenNamesFresh` hypothesis. -/
+
+def encPath : List Nat → List Char
+  | [] => []
+  | n :: q => List.replicate n 'i' ++ '.' :: encPath q
+
+/-- `$<tag><unary path>`: injective in the path, never a Python identifier. -/
+def stdGen (tag : Char) : Gen := fun q => String.ofList ('$' :: tag :: encPath q)
+
+def stdDr : Name := "$dr"
+def stdRv : Name := "$rv"
+
+def userName (x : Name) : Bool := x.toList.head? != some '$'
+
+mutual
+def userNamesE : Expr → Bool
+  | .const _ => true
+  | .var x => userName x
+  | .not e => userNamesE e
+  | .and a b => userNamesE a && userNamesE b
+  | .or a b => userNamesE a && userNamesE b
+  | .ite c t e => userNamesE c && userNamesE t && userNamesE e
+  | .bin _ a b => userNamesE a && userNamesE b
+  | .call _ args => userNamesEs args
+def userNamesEs : List Expr → Bool
+  | [] => true
+  | e :: es => userNamesE e && userNamesEs es
+end
+
+def userNamesO : Option Expr → Bool
+  | none => true
+  | some e => userNamesE e
+
+mutual
+def userNamesS : Stmt → Bool
+  | .assign x e => userName x && userNamesE e
+  | .expr e => userNamesE e
+  | .ifS c t e => userNamesE c && userNamesB t && userNamesB e
+  | .whileS c b => userNamesE c && userNamesB b
+  | .forS x it extra b => userName x && userNamesE it && userNamesO extra && userNamesB b
+  | .ret e => userNamesO e
+  | .tryS b hs f => userNamesB b && userNamesH hs && userNamesB f
+  | .withS _ b => userNamesB b
+  | .brk => true
+  | .cont => true
+  | .raise _ => true
+  | .pass => true
+def userNamesB : List Stmt → Bool
+  | [] => true
+  | s :: rest => userNamesS s && userNamesB rest
+def userNamesH : List (Nat × List Stmt) → Bool
+  | [] => true
+  | (_, b) :: hs => userNamesB b && userNamesH hs
+end
+
+mutual
+/-- A `continue` that is not inside a loop (ill-formed at function level: SyntaxError in Python). -/
+def topContS : Stmt → Bool
+  | .cont => true
+  | .ifS _ t e => topContB t || topContB e
+  | .tryS b hs f => topContB b || topContH hs || topContB f
+  | .withS _ b => topContB b
+  | _ => false
+def topContB : List Stmt → Bool
+  | [] => false
+  | s :: rest => topContS s || topContB rest
+def topContH : List (Nat × List Stmt) → Bool
+  | [] => false
+  | (_, b) :: hs => topContB b || topContH hs
+end
+
 end Malt.Sem.Jumps
